@@ -220,11 +220,11 @@ def harness_bin(name, release=False):
 # ---------------------------------------------------------------------------------------------
 # tie 2: evaluate the model on cases inside Coq
 
-def coq_eval_cases(prop, corr_module, case_type, cases, check_fn='mismatches', shard=400, imports=''):
+def coq_eval_cases(prop, corr_module, case_type, cases, check_fn='mismatches', shard=400, imports='', tag=''):
     """cases: list of Coq terms of type case_type. Evaluates `check_fn 0 [cases]` by vm_compute in
     shards over up to 16 parallel coqc processes. Returns (list of mismatching global indices, errors)"""
     os.makedirs(WORK, exist_ok=True)
-    d = os.path.join(WORK, 'cases_%s' % prop)
+    d = os.path.join(WORK, 'cases_%s%s' % (prop, tag))
     shutil.rmtree(d, ignore_errors=True)
     os.makedirs(d)
     shards = [cases[i:i + shard] for i in range(0, len(cases), shard)]
